@@ -325,6 +325,7 @@ func runC13(c *Ctx) {
 				n := o[len(o)-1]
 				c13CleaveAllAnnotated(c, w, n)
 				checkNode(n)
+				c13MoveBackground(c, w, n, checkNode)
 			}
 			for _, n := range w.nodes {
 				checkNode(n)
@@ -555,6 +556,75 @@ func runC13(c *Ctx) {
 // checkAnnViewsLoose: like checkAnnViews, but relationships that the oracle dropped as dangling (left behind by an
 // overwrite, which the property does not cover) are ignored by comparing without relationships where needed.
 // c13CleaveAllAnnotated: make one supervoxel of a multi-supervoxel body the only annotated one, cleave it.
+// c13MoveBackground: an element is moved from a voxel of a body onto a background voxel (label 0) and from a
+// background voxel onto a body; the per-body lists and the synced per-body counts must follow both times.
+func c13MoveBackground(c *Ctx, w *World, n *wnode, check func(*wnode)) {
+	if n.lm == nil {
+		return
+	}
+	var onBody, onBg [][3]int32
+	for z := 0; z < lmN && (len(onBody) < 40 || len(onBg) < 40); z += 3 {
+		for y := 0; y < lmN; y += 5 {
+			for x := 0; x < lmN; x += 7 {
+				p := [3]int32{int32(x), int32(y), int32(z)}
+				if _, occ := n.ann[p]; occ {
+					continue
+				}
+				if n.lm.vox[z*lmN+y][x] != 0 {
+					onBody = append(onBody, p)
+				} else {
+					onBg = append(onBg, p)
+				}
+			}
+		}
+	}
+	if len(onBody) < 2 || len(onBg) < 2 {
+		return
+	}
+	a, b := onBody[w.r.Intn(len(onBody))], onBg[w.r.Intn(len(onBg))]
+	els := []annElem{
+		{Pos: a, Kind: "PreSyn", Tags: []string{}, Prop: map[string]string{"n": "onbody"}, Rels: []annRel{}},
+		{Pos: b, Kind: "PostSyn", Tags: []string{}, Prop: map[string]string{"n": "onbackground"}, Rels: []annRel{}},
+	}
+	body, _ := json.Marshal(els)
+	w.must("POST", "node/"+n.uuid+"/ann/elements", body)
+	for _, e := range els {
+		n.ann[e.Pos] = e
+	}
+	w.log("episode: ann post %s at v%d (one element on a body, one on background)", string(body), n.v)
+	w.settle()
+	check(n)
+	move := func(from, to [3]int32) {
+		r := w.must("POST", fmt.Sprintf("node/%s/ann/move/%d_%d_%d/%d_%d_%d", n.uuid, from[0], from[1], from[2], to[0], to[1], to[2]), nil)
+		if !r.OK() {
+			return
+		}
+		e := n.ann[from]
+		delete(n.ann, from)
+		e.Pos = to
+		n.ann[to] = e
+		w.log("episode: ann move %v -> %v at v%d", from, to, n.v)
+		w.settle()
+		check(n)
+	}
+	var a2, b2 [3]int32
+	for _, p := range onBg {
+		if p != b {
+			b2 = p
+			break
+		}
+	}
+	for _, p := range onBody {
+		if p != a {
+			a2 = p
+			break
+		}
+	}
+	move(a, b2) // body -> background
+	move(b, a2) // background -> body
+	c.Count("episode move body<->background")
+}
+
 func c13CleaveAllAnnotated(c *Ctx, w *World, n *wnode) {
 	if n.lm == nil {
 		return
